@@ -135,6 +135,99 @@ theorem unchanged_returns_same : ∀ (legs : List Leg) (doc v : JsonVal) (mode :
 example : walk [.key [0x61]] (.obj [([0x61], nullLit)]) nullLit .insert = .ok (.obj [([0x61], nullLit)], false) := by
   rfl
 
+/-- a path of member names and plain array indexes whose names survive Go's escaping -/
+def plainLegs : List Leg → Prop
+  | [] => True
+  | .key K :: t => rawKey (escapeGo K) = K ∧ plainLegs t
+  | .idx (.nat _) :: t => plainLegs t
+  | .idx _ :: _ => False
+
+theorem parseIndex_nat_inrange (n len : Nat) (h : n < len) :
+    parseIndex (.nat n) ((len : Int) - 1) = { index := n } := by
+  simp only [parseIndex]
+  have : ¬ ((n : Int) > (len : Int) - 1) := by omega
+  simp [this]
+
+theorem parseIndex_nat_overflow (n len : Nat) (h : ¬ n < len) :
+    (parseIndex (.nat n) ((len : Int) - 1)).overflow = true := by
+  simp only [parseIndex]
+  have : ((n : Int) > (len : Int) - 1) := by omega
+  simp [this]
+
+/-- **set, then look up**: on a path that exists, SET succeeds, reports a change, and the same path
+then leads to the new value -/
+theorem lookup_set : ∀ (legs : List Leg) (d v old : JsonVal), plainLegs legs → refLookup legs d = some old →
+    ∃ d', walk legs d v .set = .ok (d', true) ∧ refLookup legs d' = some v := by
+  intro legs
+  induction legs with
+  | nil => intro d v old _ _; exact ⟨v, rfl, rfl⟩
+  | cons l rest ih =>
+    intro d v old hp hl
+    cases l with
+    | key K =>
+      obtain ⟨hk, hp'⟩ := hp
+      cases d with
+      | lit s => simp [refLookup] at hl
+      | arr xs => simp [refLookup] at hl
+      | obj kvs =>
+        simp only [refLookup] at hl
+        cases hg : objGet kvs K with
+        | none => rw [hg] at hl; simp at hl
+        | some cur =>
+          rw [hg] at hl
+          simp only at hl
+          cases rest with
+          | nil =>
+            refine ⟨.obj (objSet kvs K v), by simp [walk], ?_⟩
+            simp [refLookup, objGet_objSet kvs K v hk]
+          | cons l2 r2 =>
+            obtain ⟨nv, hw, hlk⟩ := ih cur v old hp' hl
+            refine ⟨.obj (objSet kvs K nv), ?_, ?_⟩
+            · simp only [walk, hg, Option.getD_some, hw]
+              simp
+            · simp only [refLookup, objGet_objSet kvs K nv hk]
+              exact hlk
+    | idx spec =>
+      cases spec with
+      | last => exact absurd hp (by simp [plainLegs])
+      | lastMinus n => exact absurd hp (by simp [plainLegs])
+      | nat n =>
+        have hp' : plainLegs rest := hp
+        cases d with
+        | lit s => simp [refLookup] at hl
+        | obj kvs => simp [refLookup] at hl
+        | arr xs =>
+          by_cases hn : n < xs.length
+          · have hpi := parseIndex_nat_inrange n xs.length hn
+            simp only [refLookup, hpi] at hl
+            have hle : ¬ ((xs.length : Int) ≤ (n : Int)) := by omega
+            simp only [Bool.false_or, hle, decide_false, Bool.false_eq_true, if_false, Int.toNat_natCast] at hl
+            have hget : xs[n]? = some xs[n] := by simp [hn]
+            rw [hget] at hl
+            simp only at hl
+            have hgt : ((xs.length : Int) > (n : Int)) := by omega
+            cases rest with
+            | nil =>
+              refine ⟨.arr (xs.set n v), ?_, ?_⟩
+              · simp [walk, hpi, hgt]
+              · simp only [refLookup, List.length_set, hpi, Bool.false_or, hle, decide_false, Bool.false_eq_true,
+                  if_false, Int.toNat_natCast]
+                simp [hn]
+            | cons l2 r2 =>
+              obtain ⟨nv, hw, hlk⟩ := ih xs[n] v old hp' hl
+              refine ⟨.arr (xs.set n nv), ?_, ?_⟩
+              · simp only [walk, hpi, hgt]
+                simp [hget, hw]
+              · simp only [refLookup, List.length_set, hpi, Bool.false_or, hle, decide_false, Bool.false_eq_true,
+                  if_false, Int.toNat_natCast]
+                simp [hn, hlk]
+          · have ho := parseIndex_nat_overflow n xs.length hn
+            simp [refLookup, ho] at hl
+
+example : plainLegs [.key [0x61], .idx (.nat 1)] ∧
+    refLookup [.key [0x61], .idx (.nat 1)] (.obj [([0x61], .arr [nullLit, .lit [0x31]])]) = some (.lit [0x31]) := by
+  refine ⟨⟨by rfl, trivial⟩, by rfl⟩
+
 /-- the refinement of DESIGN.md §6 — stored-text splice = structural edit, on canonical documents.
 **Not proved, and false of the code** at the points listed in design/C17.md (the harness replays a
 witness of each on every run); kept as the statement the correspondence checks. -/
